@@ -666,6 +666,20 @@ def r9(ctx):
     if mv:
         ur = agg_field(mv[0], 'use_rename')
         ok_c = ur is not None and reads_linkness(lib, ds, ur)
+        if ur is not None:
+            # `!is_link(&source) && are_on_same_mount(..)`: the second operand is only evaluated on one side of a test of the link-ness -
+            # the value depends on that test although no data flows from it
+            usl = backslice(ds, [ur])
+            by_control = False
+            for k_ in usl.calls:
+                if not k_.matches(r'are_on_same_mount$'):
+                    continue
+                for d_ in ds.dominators()[k_.bb]:
+                    t_ = ds.blocks[d_]['term']
+                    if t_['k'] == 'switch' and d_ != k_.bb and reads_linkness(lib, ds, t_['op']):
+                        by_control = True
+            # the accidental way the old clause was satisfied (any link-ness read somewhere behind the slice) does not count any more
+            ok_c = by_control
         ctx.check(ok_c, rule, ds.path + '|move-link-by-copy', ds.where(mv[0]['line']), 'use_rename is false for a symbolic link (the file it points to is copied)',
                   'a symbolic link reported with -S is moved with rename(): a relative link points nowhere from the target directory, the bytes are not readable there')
     else:
